@@ -39,6 +39,17 @@ def g_eq_strategy(topologies=None, with_profiles=True):
             # "connected" double null whose two X-points are at slightly different psi, as every
             # measured equilibrium has: gridded with nx_inter_sep=0 (sign: which X-point is primary)
             eq["delta"] = draw(st.sampled_from([1e-4, -1e-4, 2e-4, -2e-4, 4e-4, -4e-4, 8e-4]))
+        # affine variants of the configuration (families.g_geom): a tall box at small R whose upper
+        # part lies at Z > max(R) ("spherical-tokamak-like"), a large-R one, a wider box
+        geom = draw(st.sampled_from([None, None, None, None, "tall", "far", "mid", "wide"]))
+        if geom == "tall":
+            eq["geom"] = {"rshift": -0.9, "zscale": 2.5}
+        elif geom == "far":
+            eq["geom"] = {"rshift": 1.5}
+        elif geom == "mid":
+            eq["geom"] = {"rshift": -0.5, "zscale": 1.5}
+        elif geom == "wide":
+            eq["geom"] = {"rmax_extra": draw(st.sampled_from([0.2, 0.4]))}
         n = st.sampled_from([49, 57, 65, 65, 81, 97])
         eq["nR"], eq["nZ"] = draw(n), draw(n)
         if with_profiles:
@@ -69,8 +80,12 @@ def wall_strategy():
 
     @st.composite
     def build(draw):
-        kind = draw(st.sampled_from(["rect", "rect", "chamfer", "tilt"]))
+        kind = draw(st.sampled_from(["rect", "rect", "chamfer", "tilt", "baffle"]))
         w = {"kind": kind, "inset": draw(st.sampled_from([0.2, 0.2, 0.18, 0.22]))}
+        if kind == "baffle":
+            # position relative to the X-point; the tip radius follows from psinorm_sol (place_baffle)
+            w["dz"] = _round(draw(st.floats(-0.06, 0.02)), 3)
+            w["gap"] = draw(st.sampled_from([0.04, 0.06, 0.1]))
         if kind == "chamfer":
             w["cut"] = [_round(draw(st.floats(0.03, 0.15)), 3) for _ in range(4)]
         if kind == "tilt":
@@ -190,9 +205,44 @@ def g_case_strategy(topologies=None, orthogonal=None):
         if opts["psi_interpolation_method"] == "dct":
             # the cosine series costs O(nR*nZ) per evaluation
             eq["nR"], eq["nZ"] = min(eq["nR"], 65), min(eq["nZ"], 65)
+        if eq["wall"]["kind"] == "baffle":
+            place_baffle(eq, opts)
         return {"family": "G", "eq": eq, "options": opts, "entry": "api"}
 
     return build()
+
+
+def place_baffle(eq, opts):
+    """Complete a 'baffle' wall descriptor: a thin spike from the outboard wall at the height of an
+    X-point, its tip `gap` (in normalised psi) outside the gridded SOL. The box is widened so that
+    the box centre (hypnotoad's reference point for inside/outside) does not see the outer leg
+    directly. Falls back to a plain rectangle when there is no room. Pure function of (eq, opts)."""
+    from . import families
+
+    w = eq["wall"]
+    g = dict(eq.get("geom") or {})
+    if not g.get("rmax_extra"):
+        g["rmax_extra"] = 0.3
+        eq["geom"] = g
+    ref = {k: v for k, v in eq.items() if k not in ("geom", "box")}  # reference coordinates
+    f = families.g_function(ref)
+    crit = families.g_critical(ref)
+    po, px = crit["o"][2], crit["x"][0][2]
+    xp = min(crit["x"], key=lambda x: x[1]) if eq["topology"] != "usn" else max(crit["x"], key=lambda x: x[1])
+    zb = xp[1] + (w.pop("dz") if eq["topology"] != "usn" else -w.pop("dz"))
+    want = max(opts.get("psinorm_sol", 1.1), 1.0) + w.pop("gap")
+    rmax = 2.0 + g["rmax_extra"] - w.get("inset", 0.2)
+    r = xp[0] + 0.02
+    rt = None
+    while r < rmax - 0.05:
+        if (float(f.psi(r, zb)) - po) / (px - po) >= want:
+            rt = r
+            break
+        r += 0.005
+    if rt is None:
+        w["kind"] = "rect"
+        return
+    w.update(zb=_round(zb, 4), rt=_round(rt, 4), th=0.01)
 
 
 def c_case_strategy():
@@ -312,15 +362,25 @@ def coarse_label(desc):
         top = desc["eq"]["topology"]
         if top == "cdn" and desc["eq"].get("delta"):
             top = "cdn~"  # nearly connected: two X-points at slightly different psi
+        gm = desc["eq"].get("geom") or {}
+        if 0.7 * gm.get("zscale", 1.0) > 2.0 + gm.get("rmax_extra", 0.0) + gm.get("rshift", 0.0):
+            top = "tall"  # part of the grid at Z > max(R)
+        elif desc["eq"].get("wall", {}).get("kind") == "baffle":
+            top = "baffle"  # non-convex wall
         return "G/%s/%s" % (top, "orth" if o.get("orthogonal", True) else "nonorth")
     return label(desc)
 
 
-def collect(strategy, n, seed, oversample=6, keyfn=None):
-    """Draw n*oversample descriptors with Hypothesis and pick n by round-robin over labels."""
+def collect(strategy, n, seed, oversample=6, keyfn=None, reserves=None):
+    """Draw n*oversample descriptors with Hypothesis and pick n by round-robin over labels.
+
+    With reserves=k returns (picked, {label: [up to k further descriptors of that label]})."""
     import hypothesis
     from hypothesis import HealthCheck, Phase, given, settings
 
+    from .common import pin_hypothesis
+
+    pin_hypothesis()
     keyfn = keyfn or coarse_label
     got = []
 
@@ -361,16 +421,73 @@ def collect(strategy, n, seed, oversample=6, keyfn=None):
         if buckets[k]:
             out.append(buckets[k].pop(0))
         i += 1
+    if reserves is not None:
+        return out, {k: v[:reserves] for k, v in buckets.items()}
     return out
 
 
 def base_corpus(tier, seed):
-    """The shared corpus of complete-grid descriptors (tokamak G family + circular)."""
-    from hypothesis import strategies as st
+    """The shared corpus of complete-grid descriptors (tokamak G family, circular, TORPEX).
 
-    n_g = 28 if tier == "quick" else 210
-    n_c = 4 if tier == "quick" else 30
-    g = collect(g_case_strategy(), n_g, seed)
+    Two (thorough: fourteen) generated descriptors per stratum; hypnotoad refuses a good part of the
+    generated configurations (non-orthogonal single nulls, dct double nulls, ...), so strata whose
+    members were all refused are topped up from the same generated pool (next in hash order, at most
+    eight more per stratum) until one member yields a grid. A pure function of (this module,
+    families.py, the /repo sources, tier, seed); memoised on disk in the grid cache directory."""
+    import hashlib
+    import os
+
+    from . import gridlab
+
+    here = os.path.dirname(os.path.abspath(__file__))
+    h = hashlib.sha256()
+    for fn in ("corpus.py", "families.py", "gridworker.py"):
+        with open(os.path.join(here, fn), "rb") as f:
+            h.update(f.read())
+    h.update(gridlab.repo_hash().encode())
+    path = os.path.join(gridlab.CACHE, "corpus_%s_%s_%d.json" % (h.hexdigest()[:16], tier, seed))
+    try:
+        with open(path) as f:
+            return json.load(f)
+    except (OSError, ValueError):
+        pass
+    out = _base_corpus(tier, seed)
+    try:
+        os.makedirs(gridlab.CACHE, exist_ok=True)
+        tmp = path + ".%d.tmp" % os.getpid()
+        with open(tmp, "w") as f:
+            json.dump(out, f)
+        os.replace(tmp, path)
+    except OSError:
+        pass
+    return json.loads(json.dumps(out))
+
+
+def _base_corpus(tier, seed):
+    from . import gridlab
+
+    quick = tier == "quick"
+    n_g = 36 if quick else 252
+    n_c = 4 if quick else 30
+    # 18 G labels: draw many more descriptors than needed so that every label fills its quota
+    g, pool = collect(g_case_strategy(), n_g, seed, oversample=30 if quick else 12, reserves=8)
+    timeout = 240 if quick else 900
+    have = {}
+    for c in gridlab.run_cases(g, timeout=timeout):
+        k = coarse_label(c.desc)
+        have[k] = have.get(k, 0) + (1 if c.outcome == "grid" else 0)
+    for _ in range(4):
+        extra = []
+        for k in sorted(pool):
+            if have.get(k, 0) == 0:
+                extra += pool[k][:2]
+                del pool[k][:2]
+        if not extra:
+            break
+        for c in gridlab.run_cases(extra, timeout=timeout):
+            k = coarse_label(c.desc)
+            have[k] = have.get(k, 0) + (1 if c.outcome == "grid" else 0)
+        g += extra
     c = collect(c_case_strategy(), n_c, seed + 1, keyfn=c_label)
-    t = collect(t_case_strategy(), 2 if tier == "quick" else 12, seed + 2, keyfn=label)
+    t = collect(t_case_strategy(), 2 if quick else 12, seed + 2, keyfn=label)
     return g + c + t
